@@ -209,7 +209,11 @@ func c09Scenarios(tier string) []schedx.Scenario {
 	for _, st := range stores {
 		for _, pre := range []string{"fresh", "expired", "pending"} {
 			if tier == "thorough" {
-				scs = append(scs, c09Scenario(st, pre, 1, -1))
+				if st == "redis" {
+					scs = append(scs, c09Scenario(st, pre, 1, 4)) // (Redis commands are scheduling points: bounded)
+				} else {
+					scs = append(scs, c09Scenario(st, pre, 1, -1))
+				}
 				scs = append(scs, c09Scenario(st, pre, 2, 3))
 			} else {
 				scs = append(scs, c09Scenario(st, pre, 1, 2))
